@@ -48,3 +48,16 @@ PROP = {
     },
 }
 PROP.setdefault("pre", []).append(facts.make_step(['cache.update.writeThenNotify', 'cache.update.conditions']))
+
+# --- round 2 (builder bC02H): multi-update notification = its units one at a time (Props/C03Multi.lean)
+PROP["modules"].append("Gnmi.Props.C03Multi")
+PROP["theorems"] += ["Gnmi.C03." + t for t in [
+    "multi_eq_units", "multi_eq_units_components", "seqDispatch_updUnits", "seqDispatch_delUnits", "seqDispatch_append",
+    "multiDeletes_round", "multi_ne_units_future", "not_multiEqUnitsAtGnmiUpdate"]]
+PROP["manifest"]["level_text"] += (
+    " Multi = units (multi_eq_units): for every target state, configuration and clock, Target.dispatch of a non-atomic notification with at "
+    "least two updates/deletes equals dispatching its single-update units in order and then its single-delete units one at a time - same "
+    "tree, same metadata counters, same event groups in the same order, result err iff some unit erred. At Target.GnmiUpdate level the "
+    "clause is false with a future threshold, because checkTimestamp is deferred to the end of a multi-update notification: an update "
+    "rejected as future inside the notification is accepted when the units are sent separately (multi_ne_units_future, "
+    "not_multiEqUnitsAtGnmiUpdate; the Go code behaves the same: corpus/C03/multi_vs_units_future.ops).")
